@@ -2,6 +2,7 @@ package export
 
 import (
 	"bytes"
+	"fmt"
 	"github.com/hneemann/parser2/funcGen"
 	"github.com/hneemann/parser2/value"
 )
@@ -81,8 +82,15 @@ func (j jsonExporter) String(str string) error {
 			j.b.WriteString("\\r")
 		case '\n':
 			j.b.WriteString("\\n")
+		case '\\':
+			j.b.WriteString("\\\\")
 		default:
-			j.b.WriteRune(r)
+			if r < 0x20 {
+				// control characters must not appear in a JSON string
+				fmt.Fprintf(j.b, "\\u%04x", r)
+			} else {
+				j.b.WriteRune(r)
+			}
 		}
 	}
 	j.b.WriteString("\"")
